@@ -200,6 +200,19 @@ def search(rec, ctx):
     for s in corp:
         check(rec, {"src": s, "stream": "corpus"})
 
+    # programs whose acceptance by compile() hangs on a detail of the tree (simple=0/1 of AnnAssign, scopes, contexts):
+    # compile(tree) must do what compile(source) does
+    EDGE = [
+        "def f():\n    global x\n    (x): int = 0\n", "def f():\n    global x\n    x: int = 0\n", "class A:\n    (y): int = 1\n    z: int\n    (w): str\n", "(a.b): int\n", "(a[0]): int = 1\n", "(x): int\n",
+        "def g():\n    v = 1\n    def h():\n        nonlocal v\n        (v): int = 2\n    return h\n", "def f(a, /, b=1, *c, d, **e) -> int: pass\n", "async def f():\n    return [x async for x in y]\n",
+        "def f():\n    return (yield)\n", "x = lambda: (yield)\n", "def f():\n    x = [(yield 1)]\n", "class A:\n    def f(self):\n        return __class__\n", "def f(*, a): pass\nf(a=1)\n",
+        "del (a), [b], (c, d)\n", "for (a) in b: pass\n", "with a as (b): pass\n", "[(a) for (a) in b]\n", "(a) = 1\n", "((a), b) = c\n", "(a) += 1\n", "x = (y := 1)\n", "def f(): (yield)\n",
+        "try:\n    pass\nexcept* A:\n    pass\n", "def f():\n    try:\n        pass\n    except* A:\n        return\n", "while 1:\n    try:\n        pass\n    finally:\n        continue\n", "def f[T](): pass\n", "type X[T] = T\n",
+        "match a:\n    case x: pass\n    case y: pass\n", "match a:\n    case [x, x]: pass\n", "match a:\n    case {'k': v, **r}: pass\n", "f(**a, b=1)\n", "f(a for a in b)\n", "print(*a, sep='')\n",
+    ]
+    for s_ in ctx.shard(EDGE):
+        check(rec, {"src": s_, "stream": "semantic-edge"})
+
     def py(rnd):
         r = rnd.random()
         if r < 0.7:
